@@ -19,7 +19,7 @@ from ..engine.facts import dotted, const, src, walk_func, str_value, enclosing_s
 from . import skeletons as sk
 from . import c05  # declares-order is registered for C08 there
 from . import c18  # module-encoding (module-directory path writes what it declares) is registered for C08 there
-from .common import calls, stmt_nodes, param_names, kwmap, pn, access_paths
+from .common import calls, stmt_nodes, param_names, kwmap, pn, access_paths, assigned_from
 
 
 SET_ATTRS_CACHE = {}
@@ -163,8 +163,9 @@ def registry(ctx):
     mi = [x for c in calls(cf, "ModuleInfo") for x in stmt_nodes(g, c)]
     good, path = g.must_pass(g.entry, mi, exits=[g.exit], kinds=("n",))
     ctx.check(bool(mi) and good, "compile_from_file", db.where(cf), "a path through _compile_from_file returns a module without registering it (%s): Template.source/.code and tracebacks cannot find it" % g.fmt_path(path), "every path registers ModuleInfo")
-    for c in calls(cf, "ModuleInfo"):
-        ctx.check(src(c.args[0]) == "module" and src(c.args[2]) == "self", "compile_from_file.args:%d" % c.lineno, db.where(c), "ModuleInfo(%s)" % src(c), "registers (module, ..., self, ...)")
+    mvs = assigned_from(cf, "compat.load_module(...)") | assigned_from(cf, "_compile_text(...)#1")
+    for i_, c in enumerate(calls(cf, "ModuleInfo")):
+        ctx.check(src(c.args[0]) in mvs and src(c.args[2]) == "self", "compile_from_file.args:%d" % i_, db.where(c), "ModuleInfo(%s)" % src(c), "registers (module, ..., self, ...)")
     ti = db.func("template.Template.__init__")
     ct = calls(ti, "_compile_text")
     mi2 = calls(ti, "ModuleInfo")
@@ -172,7 +173,7 @@ def registry(ctx):
     ctx.check(ok, "init.text", db.where(ti), "the text branch of Template.__init__ does not register the compiled module", "text branch registers ModuleInfo")
     if mi2:
         a = [src(x) for x in mi2[0].args]
-        ctx.check(a[:1] == ["module"] and "code" in a and "text" in a, "init.text.args", db.where(mi2[0]), "ModuleInfo(%s) does not carry the module source and template source" % a, "carries code and text")
+        ctx.check(a[:1] == sorted(assigned_from(ti, "_compile_text(...)#1"))[:1] and bool(set(a) & assigned_from(ti, "_compile_text(...)#0")) and "text" in a, "init.text.args", db.where(mi2[0]), "ModuleInfo(%s) does not carry the module source and template source" % a, "carries code and text")
     mt = db.func("template.ModuleTemplate.__init__")
     c = calls(mt, "ModuleInfo")
     ctx.check(bool(c) and src(c[0].args[0]) == "module", "ModuleTemplate", db.where(mt), "ModuleTemplate does not register its module", "registers")
